@@ -672,6 +672,7 @@ func (t WriteType) IsValid() bool {
 	case WriteTypeUnloggedBatch:
 	case WriteTypeCounter:
 	case WriteTypeBatchLog:
+	case WriteTypeCas:
 	case WriteTypeView:
 	case WriteTypeCdc:
 	default:
